@@ -10,7 +10,8 @@ import tempfile
 from concurrent.futures import ThreadPoolExecutor
 
 HERE = os.path.dirname(os.path.dirname(os.path.abspath(__file__)))
-IDS = [f"C{i:02d}" for i in range(1, 21)]
+IDS = os.environ.get("BENIGN_CHECKS", "").split() or [f"C{i:02d}" for i in range(1, 21)]
+OUT = os.environ.get("BENIGN_OUT", "RESULTS.md")  # partial re-runs write elsewhere
 
 
 def sh(cmd, cwd=None, env=None, timeout=7200):
@@ -44,10 +45,10 @@ def main(names):
     names = names or sorted(n for n in os.listdir(os.path.join(HERE, "benign")) if os.path.isdir(os.path.join(HERE, "benign", n)))
     with ThreadPoolExecutor(max_workers=int(os.environ.get("MATRIX_PAR", "3"))) as pool:
         rows = list(pool.map(evaluate, names))
-    with open(os.path.join(HERE, "benign", "RESULTS.md"), "w") as f:
+    with open(os.path.join(HERE, "benign", OUT), "w") as f:
         f.write("| refactoring | repository tests | checks that raised an alarm |\n|---|---|---|\n")
         for r in rows:
-            f.write(f"| {r['name']} | {r.get('tests', r.get('patch'))} | {r['alarms'] or 'none (all 20 quick checks exit 0)'} |\n")
+            f.write(f"| {r['name']} | {r.get('tests', r.get('patch'))} | {r['alarms'] or f'none (all {len(IDS)} quick checks exit 0)'} |\n")
             print(r["name"], r.get("tests", r.get("patch")), r["alarms"], flush=True)
 
 
